@@ -21,6 +21,10 @@ def script_class(script):
     last = toks[-1]
     if len(toks) >= 2 and toks[-1].startswith("Eot.7"):
         return "mixed"
+    if toks[0] == "F":
+        return "flush-fails"
+    if last == "P":
+        return "sink-panics"
     if "*" in last:
         return "persistent:" + last.split("*")[0][:3]
     if last.startswith("E"):
@@ -36,6 +40,10 @@ def expected_failure(fail):
     """the `res` the property demands for the first failing call observed by the probe"""
     if fail.startswith("zero@"):
         return "wf:wz:0"
+    if fail.startswith("panic@"):
+        return "panic"          # a panicking sink unwinds through the render
+    if fail.startswith("flush@"):
+        return "wf:ot:424242"   # (the engine does not flush; if it did, this would be the sink's error)
     kind, rest = fail.split(":", 1)
     return "wf:%s:%s" % (kind, rest.split("@")[0])
 
@@ -45,7 +53,7 @@ def judge(r, case, api, clean_res, m, o):
     ac = api_class(api)
     res = m["res"]
     n = 0
-    if res == "panic":
+    if res == "panic" and not o["fail"].startswith("panic@") and clean_res != "panic":
         r.oracle_failure(case, "render into the writer panicked", "panic:" + ac); n += 1
     if o["prefix"] != "1":
         r.oracle_failure(case, "bytes accepted by the writer are not a prefix of the plain render's string", "delivered-not-prefix:" + ac); n += 1
@@ -81,7 +89,7 @@ def run(r):
         "the VM's sequence of output operations does not depend on the sink (it cannot observe it except through fmt::Error)",
         "user supplied formatters and Object::render implementations propagate fmt::Error",
     ]
-    r.regen_tables()
+    r.regen_tables(["C19_WRITE_SITES", "C19_WRITER_APIS", "C19_WRAPPER_SITES", "C19_SMALL_INT_LIMIT", "HTML_ESCAPE_TABLE"])
     r.lean_prove("MJ.Props.C19", "MJ/Audit/C19.lean", extra_targets=["drive_c19"])
     exe = r.cargo_build("c19")
     if exe is None:
@@ -96,7 +104,7 @@ def run(r):
         r.broken.append("model driver output does not line up with the harness cases")
         model = None
     clean_res, cur_w = {}, 0
-    n_prog = n_skip = n_fail_cases = n_ok_cases = n_routed = n_prefix = 0
+    n_prog = n_skip = n_fail_cases = n_ok_cases = n_routed = n_prefix = n_emit = n_emit_det = 0
     apis_with_failures = set()
     for i, line in enumerate(lines):
         f = line.split("\t")
@@ -104,6 +112,18 @@ def run(r):
         if tag == "skip":
             n_skip += 1
             r.hist["skipped"][f[2]] += 1
+            continue
+        if tag == "emit":
+            kf = key.split(" ")
+            r.count("emit " + key[:300], True)
+            n_emit += 1
+            if model is not None:
+                mf = model[i].split("\t")[2].split(" ")
+                r.hist["emit_layer"]["%s %s %s %s" % (kf[1], kf[2], kf[3], "determined" if mf[0] == "det=1" else "copied")] += 1
+                if len(mf) != 2 or mf[1] != f[2]:
+                    r.model_disagreement("emit " + key[:200], f[2][:300], " ".join(mf)[:300])
+                elif mf[0] == "det=1":
+                    n_emit_det += 1
             continue
         if tag == "null":
             o = kv(f[2])
@@ -128,8 +148,13 @@ def run(r):
             r.hist["string_apis"][o["strapis"]] += 1
             r.count("prog " + key[:200], cur_w > 0)
             case0 = "%s %s -" % (pid, api)
-            if o["res"] == "panic":
+            r.hist["env_config"][o.get("cfg", "?")] += 1
+            r.hist["clean_result"][o["res"] + "/plain:" + o["plain"]] += 1
+            if o["res"] == "panic" and o["plain"] != "panic":
                 r.oracle_failure(case0, "clean render into a writer panicked", "panic:" + api_class(api))
+            elif o["res"] == "panic":
+                # not about the sink: the plain render panics in the same way (user Display returning Err under html escaping)
+                r.extra.setdefault("panics_without_sink_involvement", []).append(case0)
             elif o["same"] != "1":
                 r.oracle_failure(case0, "with a never-failing writer the result/bytes differ from the plain render (res=%s plain=%s)" % (o["res"], o["plain"]),
                                  "clean-differs-from-plain:" + api_class(api))
@@ -178,6 +203,10 @@ def run(r):
         if i % 11003 == 0:
             r.sample({"case": key, "engine": f[2], "observed": f[3]})
     r.extra["programs_x_apis"] = n_prog
+    r.extra["emits_compared"] = n_emit
+    r.extra["emits_whose_pieces_the_model_determines"] = n_emit_det
+    if model is not None and n_emit_det < 3000:
+        r.broken.append("emit stream degenerate: only %d emits determined by the model" % n_emit_det)
     r.extra["real_write_ops_routed_by_model"] = n_routed
     r.extra["runs_whose_op_log_is_prefix_of_clean_log"] = n_prefix
     r.extra["cases_with_sink_failure"] = n_fail_cases
